@@ -7,5 +7,6 @@ CONSTANTS
   DEV_GlobalPrecision = FALSE
   DEV_AccumulatingRoot = FALSE
     DEV_NoTruncate = FALSE
+  DEV_NetworkCached = FALSE
 VIEW View
 ACTION_CONSTRAINT Emit
